@@ -147,6 +147,56 @@ CHECKS = {
         design='3/C20',
         note=BASE_TRUST + 'The compiler (g++ 12, -std=c++17, errors only) is the oracle for the last clause; compositions are '
              'restricted to member combinations C++ itself allows.'),
+    'C01': dict(
+        technique='TLA+ behavioural model of the compiled shell (ShellRuntime.tla) with ExactlyOnce/ReplyCarried as TLC '
+                  'invariants; TLC behaviours replayed on the real generated shell compiled against a mock Dezyne runtime; '
+                  'TLC trace validation (ShellRuntimeTrace.tla) of random command scripts on random models',
+        text='ShellRuntime.tla prescribes, per command, every observable of the compiled shell (which handler gets which '
+             'event with which argument values in which context, queue, blocked callers, replies and out-argument values '
+             'handed back) from the routing table; ShellRuntimeMC.tla explores all interleavings of calls, raises, component '
+             'events and dispatcher steps to depth 4/5 for two fixed programs with C01 as invariants, every behaviour is '
+             'replayed on the compiled shell; 24/160 random models x 6/10 random scripts are validated by TLC.',
+        design='3/C01',
+        note=BASE_TRUST + 'Trusted: the mock Dezyne 2.17 runtime and the mock of the Dezyne-generated model header under '
+             '/verif/cxx and harness/cxxgen.py; g++ 12. Headers are compiled from copies with #pragma once prepended and '
+             'as a single translation unit (work-arounds for C06 known findings F and G).'),
+    'C02': dict(
+        technique='same model and machinery as C01, judged on execution context, queueing and blocking (ContextLaw, QueueLaw, '
+                  'BlockLaw as TLC invariants; accessor types as static_asserts generated from the routing table)',
+        text='MTS provides in-events must queue a closure and block the caller until the dispatcher step that runs it, with '
+             'the handler executing on the dispatcher thread; MTS requires out-events must queue a copy and return at once; '
+             'STS events run on the caller\'s thread and never touch the queue; Sts<I>/Mts<I> accessor types are checked at '
+             'compile time, port identity (STS accessor = the component\'s own port) at run time.',
+        design='3/C02',
+        note=BASE_TRUST + 'Trusted base as C01. By-reference capture of deferred arguments is covered by value comparison after the '
+             'caller\'s frame is gone (peer threads finish before the dispatcher step).'),
+    'C04': dict(
+        technique='ShellRuntime.tla multi-client part (selection, ghost holder) validated against recorded histories of the '
+                  'compiled shell; strict reading (receiver = holder) evaluated by the trace spec on every real execution; '
+                  'TLC behaviours of ShellRuntimeMC.tla replayed; invalid settings via ShellCases.tla fault cases',
+        text='Random histories of claims with scripted replies, releases, other in-events and component out-events by 1-3 '
+             'registered clients on interfaces with arbitrary claim/release names and formals; every delivery must go to the '
+             'selected client, replies back to the caller through the dispatcher; the strict statement is evaluated on each '
+             'execution and divergences are matched against the listed known finding H.',
+        design='3/C04',
+        note=BASE_TRUST + 'Trusted base as C01. Known finding H (Deselect ignores the identifier) is modelled as the shipped '
+             'behaviour while listed; any other divergence is a violation.'),
+    'C09': dict(
+        technique='ShellRuntime.tla Construct action validated against the compiled shell constructed with all 8 locator '
+                  'contents per program (TLC trace validation)',
+        text='For both origins and 24/160 random models: exception type, identity of locator/pump/runtime seen by the mock '
+             'component, number of services, unchanged user locator, presence and identity of Locator() (SFINAE), and events '
+             'through every mechanism afterwards must be what the model prescribes.',
+        design='3/C09',
+        note=BASE_TRUST + 'Trusted base as C01.'),
+    'C10': dict(
+        technique='ShellRuntime.tla Bind/Register/Final actions validated against the compiled shell with every single '
+                  'binding omission (TLC trace validation)',
+        text='All bound / exactly one required user binding missing (any port, direction, registered client) / one component '
+             'handler missing / repeated final construction / registration after final construction: Ok, binding_error or '
+             'runtime_error and the recorded parent must be what the model prescribes.',
+        design='3/C10',
+        note=BASE_TRUST + 'Trusted base as C01; check_bindings of the mock ports mirrors the Dezyne one (every in and out event).'),
 }
 
 NOT_YET = {}
